@@ -1562,7 +1562,16 @@ func runC19(c *Ctx) {
 				if _, isCall := cs.(*ssa.Call); !isCall || cs.Common().IsInvoke() {
 					continue
 				}
-				walk(cs.Common().StaticCallee(), d+1)
+				if sc := cs.Common().StaticCallee(); sc != nil {
+					walk(sc, d+1)
+					continue
+				}
+				// a sub-handler picked from a table by the subcommand: still a plain call made by the handler
+				for _, e := range c.Callees(cs) {
+					if e.Callee != nil && e.Kind == EdgeCall {
+						walk(e.Callee, d+1)
+					}
+				}
 			}
 		}
 		for _, f := range roots {
